@@ -313,7 +313,10 @@ struct queuing_rw_mutex_impl {
             // The second approach seems better on x86 because it does not involve interlocked operations.
             // Therefore, we read next->my_state with acquire while it is not required for else branch to get the 
             // release sequence.
-            if( next->my_state.load(std::memory_order_acquire)==STATE_UPGRADE_WAITING ) {
+            // The next can already be STATE_UPGRADE_LOSER: this writer was upgraded, downgraded (which marked the
+            // waiting upgrader as a loser) and upgraded again. It is still waiting inside upgrade_to_writer and
+            // needs the same handshake.
+            if( next->my_state.load(std::memory_order_acquire) & STATE_COMBINED_UPGRADING ) {
                 // the next waiting for upgrade means this writer was upgraded before.
                 acquire_internal_lock(s);
                 // Responsibility transition, the one who reads uncorrupted my_prev will do release.
@@ -503,7 +506,7 @@ struct queuing_rw_mutex_impl {
                 __TBB_ASSERT(tricky_pointer::load(s.my_next, std::memory_order_relaxed) != (tricky_pointer(next)|FLAG), nullptr);
                 goto requested;
             } else {
-                __TBB_ASSERT( n_state & (STATE_WRITER | STATE_UPGRADE_WAITING), "unexpected state");
+                __TBB_ASSERT( n_state & (STATE_WRITER | STATE_COMBINED_UPGRADING), "unexpected state");
                 __TBB_ASSERT( (tricky_pointer(next)|FLAG) == tricky_pointer::load(s.my_next, std::memory_order_relaxed), nullptr);
                 tricky_pointer::store(s.my_next, next, std::memory_order_relaxed);
             }
